@@ -7,7 +7,7 @@ import (
 // C15 — Validate/Transform gate every insertion path (DESIGN 4/C15).
 
 func init() {
-	drivers["C15"] = &driver{cases: tierN(400, 8000), run: runC15}
+	drivers["C15"] = &driver{cases: tierN(400, 40000), run: runC15}
 }
 
 // checkHookLog verifies, for every object handed to an insertion call in the
